@@ -274,6 +274,8 @@ def check_end_pointers(idx: Index, rep: Report) -> None:
                 en = cfg.node_of(es)
                 if en == at or not redefs:
                     return True
+                if isinstance(node, ast.Name) and isinstance(es.value, ast.Attribute) and not any(isinstance(x, ast.Name) and x.id == node.id for x in ast.walk(es.value)):
+                    return True  # the end store reads the link itself (`x.next`), the expression the local stands for, not a local
                 av = lambda x: x.id in redefs
                 return cfg.path_avoiding(at, en, av, follow_exc=False) is not None or cfg.path_avoiding(en, at, av, follow_exc=False) is not None
 
